@@ -27,6 +27,7 @@ import (
 	"verif/harness/api"
 	"verif/harness/ctr"
 	"verif/harness/h"
+	_ "verif/harness/warm"
 	"verif/harness/keys"
 	"verif/harness/tok"
 	"verif/harness/val"
